@@ -274,3 +274,55 @@ def run(ctx):
         check_kernels(ctx, "C02.K", ['is_zero_with_tolerance'])
         from .kernels import check_leaves
         check_leaves(ctx, "C02.K", ['balance.is_empty', 'balance.get_side'])
+
+
+def _split_wiring(ctx):
+    """C02.R2: the two balance primitives always settle both sides: on every successful path of decrease_balance_internal the
+    position and the bank lose get_asset_shares(min(asset amount, x)) and gain get_liability_shares(max(0, x - asset amount)); mirror image for increase."""
+    prog = ctx.prog
+    A_AMT = "get_asset_amount(p1.bank,p1.balance.asset_shares)"
+    L_AMT = "get_liability_amount(p1.bank,p1.balance.liability_shares)"
+    want = {
+        "decrease_balance_internal": {"asset": "neg(get_asset_shares(p1.bank,min(%s,p2)))" % A_AMT, "liability": "get_liability_shares(p1.bank,max(0,checked_sub(p2,%s)))" % A_AMT},
+        "increase_balance_internal": {"asset": "get_asset_shares(p1.bank,max(0,checked_sub(p2,%s)))" % L_AMT, "liability": "neg(get_liability_shares(p1.bank,min(%s,p2)))" % L_AMT},
+    }
+    for nm, w in want.items():
+        fs = prog.find_fns({"name": nm, "crate": "marginfi"})
+        if len(fs) != 1:
+            ctx.missing("C02.R2", nm)
+            continue
+        f = fs[0]
+        calls = [c for c in f.calls() if c.callee and c.callee["name"] in ("change_asset_shares", "change_liability_shares")]
+        probes = {}
+        for i, c in enumerate(calls):
+            who = "bank" if "Bank" in (c.callee.get("self_adt") or "") else "balance"
+            side = "asset" if "asset" in c.callee["name"] else "liability"
+            probes["%s/%s#%d" % (who, side, i)] = (c.block, c.args[1])
+        bad = []
+        nok = 0
+        for cs, r, st in effect_paths(prog, f, limit=20000, probes=probes):
+            if not r or not r.startswith("Result::Ok"):
+                continue
+            nok += 1
+            got = {}
+            for k, v in st.items():
+                if k.startswith("?"):
+                    got.setdefault(k[1:].split("#")[0], []).append(v)
+            for who in ("bank", "balance"):
+                for side in ("asset", "liability"):
+                    vals = got.get("%s/%s" % (who, side), [])
+                    if vals != [w[side]]:
+                        bad.append("%s %s-side update on a successful path is %s" % (who, side, vals or "missing"))
+        ctx.inst("C02.R2", "split-wiring/" + nm, nok > 0 and not bad,
+                 "%s: on every successful path both the position and the bank get asset delta %s and liability delta %s" % (nm, w["asset"][:70], w["liability"][:70]),
+                 sorted(set(bad))[:3] or "%d successful paths" % nok, f.loc(f.raw["span"]))
+
+
+_run_pre_split = run
+
+
+def run(ctx):
+    try:
+        _run_pre_split(ctx)
+    finally:
+        _split_wiring(ctx)
